@@ -109,3 +109,201 @@ def auto(case):
                           margin_right='auto' if case['mr'] == 'auto' else F(case['mr']))
     T.auto_table_layout(context, box, (F(case['cb']), None))
     return [str(table.width), _strs(table.column_widths)]
+
+
+# ------------------------------------------------------------------ full renders with recording hooks
+
+def _num(x):
+    """exact string for a finite float/int, else repr."""
+    import math
+    if isinstance(x, bool):
+        return str(int(x))
+    if isinstance(x, int):
+        return str(x)
+    if isinstance(x, float) and math.isfinite(x):
+        return str(Fraction(x))
+    if isinstance(x, Fraction):
+        return str(x)
+    return 'bad:%r' % (x,)
+
+
+def _cid(color):
+    """colour identifier: 0 for fully transparent, else 1 + packed rgb (alpha ignored unless 0)."""
+    try:
+        r, g, b, a = color
+    except Exception:  # noqa
+        return 999999999
+    if a == 0:
+        return 0
+    return 1 + int(round(r * 255)) + 256 * int(round(g * 255)) + 65536 * int(round(b * 255))
+
+
+def _sides(style):
+    from weasyprint.draw.color import get_color
+    out = []
+    for side in ('top', 'right', 'bottom', 'left'):
+        out.append([style['border_%s_style' % side], _num(style['border_%s_width' % side]),
+                    _cid(get_color(style, 'border_%s_color' % side))])
+    return out
+
+
+def _decl(v):
+    if v == 'auto':
+        return 'auto'
+    return [v.unit, _num(v.value)]
+
+
+def render(case):
+    """case: dict(html=...).  Renders with hooks on auto_table_layout, fixed_table_layout and
+    collapse_table_borders; returns the recorded calls (inputs and outputs) and the geometry of every table
+    fragment of every page."""
+    from tests.testing_utils import render_pages
+    from weasyprint.layout import table as T
+    from weasyprint.formatting_structure import build as B, boxes
+    rec = {'auto': [], 'fixed': [], 'borders': [], 'tables': [], 'pages': 0}
+    orig_auto, orig_fixed, orig_collapse = T.auto_table_layout, T.fixed_table_layout, B.collapse_table_borders
+
+    def auto_hook(context, box, containing_block):
+        table = box.get_wrapped_table()
+        r = None
+        try:
+            (tmin, tmax, mins, maxs, pcts, cons, ths, grid) = T.table_and_columns_preferred_widths(context, box, outer=False)
+            r = dict(tid=table.element.get('id') if table.element is not None else None,
+                     tw='auto' if table.width == 'auto' else _num(table.width), cb=_num(containing_block[0]),
+                     ml='auto' if box.margin_left == 'auto' else _num(box.margin_left),
+                     mr='auto' if box.margin_right == 'auto' else _num(box.margin_right),
+                     pl=_num(table.padding_left), pr=_num(table.padding_right),
+                     bl=_num(table.border_left_width), br=_num(table.border_right_width),
+                     tmin=_num(tmin), tmax=_num(tmax), ths=_num(ths),
+                     cols=[[1 if g else 0, 1 if c else 0, _num(p), _num(mx), _num(mn)]
+                           for g, c, p, mx, mn in zip(grid, cons, pcts, maxs, mins)])
+        except Exception as exc:  # noqa
+            r = dict(hook_error=repr(exc))
+        try:
+            orig_auto(context, box, containing_block)
+        except Exception as exc:  # noqa
+            r['out'] = None
+            r['exc'] = repr(exc)
+            rec['auto'].append(r)
+            raise
+        r['out'] = [_num(table.width), [_num(w) for w in table.column_widths]]
+        rec['auto'].append(r)
+
+    def fixed_hook(box):
+        table = box.get_wrapped_table()
+        W = table.width
+        collapse = table.style['border_collapse'] == 'collapse'
+        cols = [c for g in table.column_groups for c in g.children]
+        cells = table.children[0].children[0].children if table.children and table.children[0].children else None
+        orig_fixed(box)
+        r = dict(tid=table.element.get('id') if table.element is not None else None, W=_num(W),
+                 spacing=_num(table.style['border_spacing'][0]), collapse=collapse,
+                 cols=[_decl(c.style['width']) for c in cols], cells=None,
+                 out=[_num(table.width), [_num(w) for w in table.column_widths]])
+        if cells is not None:
+            r['cells'] = []
+            for cell in cells:
+                if cell.style['box_sizing'] == 'content-box' or cell.style['width'] == 'auto':
+                    wd = _decl(cell.style['width'])
+                else:
+                    wd = ['px', _num(cell.width)]
+                r['cells'].append(dict(span=cell.colspan, width=wd, pl=_num(cell.padding_left), pr=_num(cell.padding_right),
+                                       bl=_num(cell.border_left_width), br=_num(cell.border_right_width)))
+        rec['fixed'].append(r)
+
+    def collapse_hook(table, grid_width, grid_height):
+        bxs = []
+        y = 0
+        for group in table.children:
+            for row in group.children:
+                for cell in row.children:
+                    bxs.append(['cell', cell.grid_x, y, cell.colspan, cell.rowspan, _sides(cell.style)])
+                y += 1
+        y = 0
+        for group in table.children:
+            for row in group.children:
+                bxs.append(['row', 0, y, grid_width, 1, _sides(row.style)])
+                y += 1
+        y = 0
+        for group in table.children:
+            bxs.append(['group', 0, y, grid_width, len(group.children), _sides(group.style)])
+            y += len(group.children)
+        for cg in table.column_groups:
+            for col in cg.children:
+                bxs.append(['col', col.grid_x, 0, 1, grid_height, _sides(col.style)])
+        for cg in table.column_groups:
+            bxs.append(['colgroup', cg.grid_x, 0, cg.span, grid_height, _sides(cg.style)])
+        bxs.append(['table', 0, 0, grid_width, grid_height, _sides(table.style)])
+        res = orig_collapse(table, grid_width, grid_height)
+        v, h = res
+        enc = lambda g: [[[b[0], _num(b[1]), _cid(b[2])] for (_, b) in rowl] for rowl in g]
+        rec['borders'].append(dict(tid=table.element.get('id') if table.element is not None else None,
+                                   rtl=table.style['direction'] == 'rtl', gw=grid_width, gh=grid_height,
+                                   boxes=bxs, v=enc(v), h=enc(h)))
+        return res
+
+    T.auto_table_layout, T.fixed_table_layout, B.collapse_table_borders = auto_hook, fixed_hook, collapse_hook
+    try:
+        pages = render_pages(case['html'])
+    finally:
+        T.auto_table_layout, T.fixed_table_layout, B.collapse_table_borders = orig_auto, orig_fixed, orig_collapse
+    rec['pages'] = len(pages)
+
+    def text_of(box):
+        if isinstance(box, boxes.TextBox):
+            return box.text
+        return ''.join(text_of(c) for c in getattr(box, 'children', ()) or ())
+
+    def walk(box, page_index, page, wrapper=None, parent=None):
+        if isinstance(box, boxes.TableBox):
+            rec['tables'].append(table_geometry(box, page_index, page, wrapper, parent))
+        for c in getattr(box, 'children', ()) or ():
+            walk(c, page_index, page, box if getattr(box, 'is_table_wrapper', False) else None, box)
+
+    def eid(b):
+        return b.element.get('id') if b.element is not None else None
+
+    def table_geometry(table, page_index, page, wrapper, parent):
+        rtl = table.style['direction'] == 'rtl'
+        collapse = table.style['border_collapse'] == 'collapse'
+        cw = list(table.column_widths)
+        cp = list(table.column_positions)
+        if rtl:   # stored graphically (left to right) after layout: back to logical order
+            cw.reverse(); cp.reverse()
+        g = dict(page=page_index, tid=eid(table), rtl=rtl, collapse=collapse,
+                 fixed=(table.style['table_layout'] == 'fixed' and table.style['width'] != 'auto'),
+                 cbx=_num(table.content_box_x()), cby=_num(table.content_box_y()), W=_num(table.width), H=_num(table.height),
+                 spacing=_num(0 if collapse else table.style['border_spacing'][0]),
+                 spacing_y=_num(0 if collapse else table.style['border_spacing'][1]),
+                 ws=[_num(w) for w in cw], pos=[_num(p) for p in cp], groups=[],
+                 page_bottom=_num(page.content_box_y() + page.height),
+                 wrapper=None)
+        if wrapper is not None:
+            g['wrapper'] = dict(x=_num(wrapper.position_x), w=_num(wrapper.margin_width()),
+                                ml=_num(wrapper.margin_left), mr=_num(wrapper.margin_right),
+                                bw=_num(wrapper.border_width()),
+                                captions=[dict(side=c.style['caption_side'], y=_num(c.position_y), h=_num(c.margin_height()))
+                                          for c in wrapper.children if isinstance(c, boxes.TableCaptionBox)])
+        for group in table.children:
+            gg = dict(header=bool(group.is_header), footer=bool(group.is_footer), gid=eid(group),
+                      y=_num(group.position_y), h=_num(group.height), rows=[])
+            for row in group.children:
+                rr = dict(rid=eid(row), x=_num(row.position_x), y=_num(row.position_y), w=_num(row.width), h=_num(row.height), cells=[])
+                for cell in row.children:
+                    el = cell.element
+                    try:
+                        span = int(el.get('colspan', 1)) if (el is not None and el.tag in ('td', 'th')) else 1
+                    except ValueError:
+                        span = 1
+                    rr['cells'].append(dict(
+                        cid=eid(cell), gx=cell.grid_x, span=max(span, 1), k=cell.colspan, rowspan=cell.rowspan,
+                        x=_num(cell.position_x), y=_num(cell.position_y), w=_num(cell.width),
+                        bp=_num(cell.padding_left + cell.padding_right + cell.border_left_width + cell.border_right_width),
+                        bh=_num(cell.border_height()), text=text_of(cell)))
+                gg['rows'].append(rr)
+            g['groups'].append(gg)
+        return g
+
+    for i, page in enumerate(pages):
+        walk(page, i, page)
+    return rec
